@@ -75,6 +75,7 @@ func stratInst(s strategy.Strategy, idle func() int) Inst {
 			return []Out{OutOf("actions", s.Compute(in), actF)}
 		},
 		Report: s.Report,
+		Strat:  s,
 	}
 }
 
@@ -171,6 +172,7 @@ func init() {
 				return stratInst(s, nil)
 			}},
 		Pipe{Name: "strategy/trend.KdjStrategy", Class: "strategy", Inputs: snapIn, Params: ps("rmax", "rmin", "sma1", "sma2"),
+			Valid:   func(c []int) bool { return c[0] == c[1] },
 			Default: cfgOf(trend.DefaultKdjMinMaxPeriod, trend.DefaultKdjMinMaxPeriod, trend.DefaultKdjSma1Period, trend.DefaultKdjSma2Period),
 			Fields:  []string{"Close", "High", "Low"},
 			Make: func(cfg []int) Inst {
